@@ -1794,8 +1794,6 @@ struct MapEncoder<'a> {
     map: &'a MapArray,
     keys: KeyKind<'a>,
     values: FieldEncoder<'a>,
-    keys_offset: usize,
-    values_offset: usize,
 }
 
 impl<'a> MapEncoder<'a> {
@@ -1822,15 +1820,12 @@ impl<'a> MapEncoder<'a> {
                 value_plan,
                 values_nullability,
             )?,
-            keys_offset: keys_arr.offset(),
-            values_offset: map.values().offset(),
         })
     }
 
     fn encode_map_entries<W, O>(
         out: &mut W,
         keys: &GenericStringArray<O>,
-        keys_offset: usize,
         start: usize,
         end: usize,
         mut write_item: impl FnMut(&mut W, usize) -> Result<(), AvroError>,
@@ -1840,8 +1835,8 @@ impl<'a> MapEncoder<'a> {
         O: OffsetSizeTrait,
     {
         encode_blocked_range(out, start, end, |out, j| {
-            let j_key = j.saturating_sub(keys_offset);
-            write_len_prefixed(out, keys.value(j_key).as_bytes())?;
+            // Map offsets index the key and value arrays logically
+            write_len_prefixed(out, keys.value(j).as_bytes())?;
             write_item(out, j)
         })
     }
@@ -1850,15 +1845,11 @@ impl<'a> MapEncoder<'a> {
         let offsets = self.map.offsets();
         let start = offsets[idx] as usize;
         let end = offsets[idx + 1] as usize;
-        let write_item = |out: &mut W, j: usize| {
-            let j_val = j.saturating_sub(self.values_offset);
-            self.values.encode(out, j_val)
-        };
+        let write_item = |out: &mut W, j: usize| self.values.encode(out, j);
         match self.keys {
             KeyKind::Utf8(arr) => MapEncoder::<'a>::encode_map_entries(
                 out,
                 arr,
-                self.keys_offset,
                 start,
                 end,
                 write_item,
@@ -1866,7 +1857,6 @@ impl<'a> MapEncoder<'a> {
             KeyKind::LargeUtf8(arr) => MapEncoder::<'a>::encode_map_entries(
                 out,
                 arr,
-                self.keys_offset,
                 start,
                 end,
                 write_item,
@@ -2009,7 +1999,6 @@ where
 struct ListEncoder<'a, O: OffsetSizeTrait> {
     list: &'a GenericListArray<O>,
     values: FieldEncoder<'a>,
-    values_offset: usize,
 }
 
 type ListEncoder32<'a> = ListEncoder<'a, i32>;
@@ -2028,7 +2017,6 @@ impl<'a, O: OffsetSizeTrait> ListEncoder<'a, O> {
                 item_plan,
                 items_nullability,
             )?,
-            values_offset: list.values().offset(),
         })
     }
 
@@ -2038,10 +2026,8 @@ impl<'a, O: OffsetSizeTrait> ListEncoder<'a, O> {
         start: usize,
         end: usize,
     ) -> Result<(), AvroError> {
-        encode_blocked_range(out, start, end, |out, row| {
-            self.values
-                .encode(out, row.saturating_sub(self.values_offset))
-        })
+        // List offsets index the values array logically, whatever its physical offset
+        encode_blocked_range(out, start, end, |out, row| self.values.encode(out, row))
     }
 
     fn encode<W: Write + ?Sized>(&mut self, out: &mut W, idx: usize) -> Result<(), AvroError> {
